@@ -69,6 +69,9 @@ type Task struct {
 	started bool
 	// Local is scratch storage for the harness.
 	Local any
+	// scripted: the task is unwinding from a deliberate panic raised by a
+	// harness receiver on behalf of the scenario (ScriptedPanic)
+	scripted bool
 }
 
 // Crash describes an un-recovered panic in a simulated goroutine (the real
@@ -383,7 +386,7 @@ func (w *World) recordPanic(t *Task, r any) {
 	if ex, ok := r.(exitPanic); ok {
 		c.Exit = true
 		c.Value = ex.msg
-	} else if strings.HasPrefix(c.Value, "scripted crash") || strings.HasPrefix(c.Value, "&{scripted crash") {
+	} else if t.scripted || strings.HasPrefix(c.Value, "scripted crash") || strings.HasPrefix(c.Value, "&{scripted crash") {
 		// a deliberate actor crash raised by a harness receiver that nobody
 		// recovered: the code under test failed to contain it
 	} else if strings.HasPrefix(origin, "verif/") || strings.HasPrefix(origin, "main.") {
@@ -687,6 +690,19 @@ func NodeDown(node int) bool { return W.nodeDown[node] }
 
 // NodeUp clears the down mark of a node.
 func NodeUp(node int) { delete(W.nodeDown, node) }
+
+// ScriptedPanic panics with v on behalf of the scenario: a harness receiver
+// playing an actor that crashes, with whatever panic value the scenario wants
+// (a string, an error, a typed nil, ...). If nothing recovers it, the crash
+// is attributed to the code under test, which failed to contain it.
+func ScriptedPanic(v any) {
+	W.cur.scripted = true
+	panic(v)
+}
+
+// ScriptedPanicOver is called by harness receivers on entry: an earlier
+// scripted panic on this task has been recovered.
+func ScriptedPanicOver() { W.cur.scripted = false }
 
 // WaitQuiet parks the caller until nothing else can run and no timer is due
 // within limit of simulated time. It returns true when no timer is pending at
